@@ -10,7 +10,7 @@ From Coq Require Import PrimFloat.
 Import ListNotations.
 From DD Require Import Hash.HashModel DiffIO.DiffIOModel.
 From DD Require Import Base.Value Diff.Tree Diff.DiffModel Dist.DistModel Dist.DistProofs Dist.DistDiffModel Dist.DistDiffProofs.
-From DD Require Import Dist.DistIOModel Dist.DistIOLength Dist.DistIOProofs Dist.DistIOMutual.
+From DD Require Import Dist.DistIOModel Dist.DistIOLength Dist.DistIOProofs Dist.DistIOMutual Dist.DistFracFloat.
 
 (** ** number / date / time distance: range *)
 
@@ -288,3 +288,25 @@ Theorem C19_pair_distance_range_default :
     0 < n /\ n <= m.
 Proof. exact pair_distance_norep_range. Qed.
 Print Assumptions C19_pair_distance_range_default.
+
+(** ** the float a fraction denotes
+
+    [RFrac n m] stands for Python's n / m (int / int, correctly rounded: [sf_div_Z], which is how the
+    correspondence renders it).  For 0 < n <= m - the conclusion of every range theorem above - the ROUNDED
+    quotient is +0 or a positive finite float mm * 2^e with e <= 0 and mm <= 2^(-e): its value is at most 1.0
+    (1.0 is representable, so round-to-nearest-even cannot cross it), and it is not 0 unless the divisor has
+    more than 1000 binary digits (underflow). *)
+Theorem C19_fraction_float_at_most_one : forall n m : nat, 0 < n -> n <= m ->
+  match frac_float n m with
+  | SpecFloat.S754_zero false => True
+  | SpecFloat.S754_finite false mm e => (e <= 0)%Z /\ (Zpos mm <= 2 ^ (- e))%Z
+  | _ => False
+  end.
+Proof. exact frac_float_unit. Qed.
+Print Assumptions C19_fraction_float_at_most_one.
+
+Theorem C19_fraction_float_positive : forall n m : nat, 0 < n ->
+  (Zpos (SpecFloat.digits2_pos (Pos.of_nat m)) <= 1000)%Z ->
+  sf_is_zero (frac_float n m) = false.
+Proof. exact frac_float_positive. Qed.
+Print Assumptions C19_fraction_float_positive.
